@@ -56,10 +56,13 @@ def lens_for(d):
     if d["fam"] == "cipher":
         B = d["B"]
         return [0, 1, B - 1, B, B + 1, 2 * B]
+    # ... plus inputs the mechanism must REFUSE (longer than it can take, not the fixed size): a call that fails must leave no operation behind
     if "fixin" in d:
-        return [d["fixin"]]
+        return [d["fixin"], d["fixin"] + 1]
     if d["fam"] == "asym-cipher":
-        return [0, 1, 16, d["maxin"]]
+        return [0, 1, 16, d["maxin"], d["maxin"] + 1, d["size"] + 1]
+    if "maxin" in d:
+        return [0, 1, 63, 64, 65, d["maxin"], d["maxin"] + 1, d["size"] + 1]
     return [0, 1, 63, 64, 65]
 
 
@@ -450,7 +453,28 @@ class C12(CheckBase):
                          "C_VerifyUpdate s=%d in=x00" % m.s, "C_VerifyFinal s=%d in=x00" % m.s, "C_Verify s=%d in=x00 sig=x00" % m.s,
                          "C_DigestUpdate s=%d in=x00" % m.s, "C_DigestFinal s=%d out=b64" % m.s, "C_Digest s=%d in=x00 out=b64" % m.s,
                          "C_FindObjects s=%d max=1" % m.s, "C_FindObjectsFinal s=%d" % m.s]
-                for l, r in zip(lines, p.batch(lines)):
+                # every probe in a snapshot of its own: a continuation call that meets a left-over operation may end it (C_SignUpdate on a single-part-only
+                # operation answers CKR_OPERATION_NOT_INITIALIZED and resets), which would hide the left-over from the probes that follow
+                rs = []
+                for l in lines:
+                    d1 = sh.depth
+                    sh.snap(copy=False)
+                    try:
+                        rs.append(p.call(l))
+                    finally:
+                        sh.unwind(d1)
+                # ... and "an operation that finished or failed is gone": a new operation of every kind can be started
+                for name, kind in (("sha1", "Digest"), ("aes-ecb", "Encrypt"), ("aes-cbc", "Decrypt"), ("hmac-sha256", "Sign"), ("hmac-sha256", "Verify"), ("find", "Find")):
+                    d1 = sh.depth
+                    sh.snap(copy=False)
+                    try:
+                        r = p.FindObjectsInit(m.s, []) if kind == "Find" else p.call(self.init_line(m, name, kind))
+                        ctx.count("init_without_operation")
+                        if r["rv"] == C.CKR_OPERATION_ACTIVE:
+                            raise Violation("C12|automaton|%sInit-refused-as-active-although-no-operation-is-active|after-%s" % (kind, a[0]), {"after": a})
+                    finally:
+                        sh.unwind(d1)
+                for l, r in zip(lines, rs):
                     ctx.count("continuation_without_operation")
                     if r["rv"] != C.CKR_OPERATION_NOT_INITIALIZED:
                         raise Violation("C12|automaton|%s-without-operation-returned-%s|after-%s" % (l.split()[0], C.CKR_NAMES.get(r["rv"], hex(r["rv"])), a[0]),
